@@ -2,7 +2,8 @@
 
 Explicit-state search over histories of request_enable / request_disable / rollback / commit / attribute reads on a
 real ``package.conditionals`` wrapper (built with ``ConfiguredTree.config_wrappables``) around a FakePkg whose
-DEPEND/RDEPEND/PDEPEND/BDEPEND/IDEPEND/LICENSE/RESTRICT/REQUIRED_USE/fetchables/distfiles mention the flags.
+DEPEND/RDEPEND/PDEPEND/BDEPEND/IDEPEND/LICENSE/RESTRICT/REQUIRED_USE/fetchables/distfiles mention the flags, both as
+``flag? ( ... )`` groups and inside conditional USE deps of atoms (``dev/b[b?]``, ``dev/c[a=]``).
 """
 
 import hashlib
@@ -19,7 +20,9 @@ RULE = (
     "locked-on flag L, a locked-off flag K, multi-flag requests mixing them; rollback(p) for every p <= changes_count(); "
     "commit(); read of one wrapped attribute; read of all wrapped attributes} is replayed on a fresh wrapper. In every state "
     "every wrapped attribute must equal the raw attribute evaluated under set(pkg.use) (string form of "
-    "raw.evaluate_depset and, independently, the leaf set computed by a plain evaluator of the attribute's structure), and a "
+    "raw.evaluate_depset on a pristine raw package and, independently, the leaf set computed by a plain evaluator of the "
+    "attribute's structure incl. conditional USE-dep atoms); the same holds for a second configured view of the same raw "
+    "package created afterwards; and a "
     "request that did not return True must have left set(pkg.use) unchanged. States are de-duplicated on the exact wrapper "
     "state (USE set, change log, changed set, _reuse_pt, cached (generation, value) per attribute). A class is (last event "
     "kind, its outcome, whether a cached read preceded it, verdict)."
@@ -41,7 +44,8 @@ BOUNDS = {
 TIME_CAP = {"quick": 300, "thorough": 2400}
 
 # ---------------------------------------------------------------- package under test (structure -> text and -> model)
-# node: ("leaf", text) | ("if", flag, wanted, [nodes]) | ("or", [nodes])
+# node: ("leaf", text) | ("if", flag, wanted, [nodes]) | ("or", [nodes]) | ("uatom", base, flag, kind)
+# kind is the conditional USE-dep operator: "?", "=", "!?", "!="
 
 
 def L(t):
@@ -60,12 +64,29 @@ def OR(*nodes):
     return ("or", list(nodes))
 
 
+def UA(base, flag, kind):
+    return ("uatom", base, flag, kind)
+
+
+def _ua_text(n):
+    return f"{n[1]}[{'!' if n[3].startswith('!') else ''}{n[2]}{n[3][-1]}]"
+
+
+def _ua_eval(n, use):
+    """PMS 8.3.4: [f?] -> [f] if f else nothing; [f=] -> [f] / [-f]; [!f?] -> nothing / [-f]; [!f=] -> [-f] / [f]."""
+    on = n[2] in use
+    dep = {"?": (n[2], None), "=": (n[2], "-" + n[2]), "!?": (None, "-" + n[2]), "!=": ("-" + n[2], n[2])}[n[3]][0 if on else 1]
+    return n[1] + (f"[{dep}]" if dep else "")
+
+
 ATTRS = {
     "depend": [IF("a", L("x/a")), IFN("b", L("x/nb")), IF("L", L("x/l")), IF("K", L("x/k")), L("x/always")],
-    "rdepend": [IF("a", IF("b", L("x/ab")), IFN("b", L("x/anb"))), IFN("a", L("x/na"))],
-    "pdepend": [IFN("L", L("x/nl")), IFN("K", L("x/nk")), IF("b", L("x/pb"))],
+    "rdepend": [IF("a", IF("b", L("x/ab")), IFN("b", L("x/anb"))), IFN("a", L("x/na")), IF("L", UA("dev/f", "b", "?"))],
+    # group conditionals on L, K, b; flag a only inside USE deps of atoms
+    "pdepend": [IFN("L", L("x/nl")), IFN("K", L("x/nk")), IF("b", L("x/pb")), UA("dev/c", "a", "="), UA("dev/d", "a", "!?")],
     "bdepend": [IF("b", L("x/bb")), OR(IF("a", L("x/oa")), L("x/ob"))],
-    "idepend": [IF("a", L("x/ia")), IFN("a", L("x/ina"))],
+    # group conditionals on a; flag b only inside USE deps of atoms
+    "idepend": [IF("a", L("x/ia")), IFN("a", L("x/ina")), UA("dev/b", "b", "?"), UA("dev/e", "b", "!=")],
     "license": [IF("a", L("GPL-2")), OR(IF("b", L("MIT")), L("BSD"))],
     "restrict": [IF("a", L("test")), IFN("b", L("mirror")), L("strip")],
     "required_use": [IF("a", L("b")), IF("K", L("!a")), IFN("b", L("L"))],
@@ -85,6 +106,8 @@ def render(nodes):
             out.append(n[1])
         elif n[0] == "if":
             out.append(("" if n[2] else "!") + n[1] + "? ( " + render(n[3]) + " )")
+        elif n[0] == "uatom":
+            out.append(_ua_text(n))
         else:
             out.append("|| ( " + render(n[1]) + " )")
     return " ".join(out)
@@ -98,6 +121,8 @@ def model_leaves(nodes, use):
         elif n[0] == "if":
             if (n[1] in use) == n[2]:
                 out.extend(model_leaves(n[3], use))
+        elif n[0] == "uatom":
+            out.append(_ua_eval(n, use))
         else:
             out.extend(model_leaves(n[1], use))
     return out
@@ -112,42 +137,57 @@ def leaves_of_text(text):
 _cls = {}
 
 
+def _mk_raw():
+    """A fresh raw package: nothing a previous history or probe did to its DepSets can leak into this one."""
+    from pkgcore.ebuild.conditionals import DepSet
+    from pkgcore.test.misc import FakePkg
+
+    raw = FakePkg(
+        "c/p-1",
+        eapi="8",
+        iuse=("a", "b", "L", "K"),
+        restrict=_text["restrict"],
+        data={
+            "DEPEND": _text["depend"],
+            "RDEPEND": _text["rdepend"],
+            "PDEPEND": _text["pdepend"],
+            "BDEPEND": _text["bdepend"],
+            "IDEPEND": _text["idepend"],
+            "LICENSE": _text["license"],
+            "REQUIRED_USE": _text["required_use"],
+        },
+    )
+    # FakePkg pins fetchables to []; hold a string DepSet there instead (distfiles likewise, independent of SRC_URI parsing)
+    object.__setattr__(raw, "fetchables", DepSet.parse(_text["fetchables"], str, operators={}))
+    object.__setattr__(raw, "distfiles", DepSet.parse(_text["distfiles"], str, operators={}))
+    return raw
+
+
+_text = {}
+
+
 def _setup():
     if _cls:
         return _cls
     from functools import partial
 
-    from pkgcore.ebuild.conditionals import DepSet
     from pkgcore.ebuild.repository import ConfiguredTree
     from pkgcore.package.conditionals import make_wrapper
-    from pkgcore.test.misc import FakePkg, FakeRepo
+    from pkgcore.test.misc import FakeRepo
 
+    for a in ATTRS:
+        _text[a] = render(ATTRS[a])
     wr = {k: v for k, v in ConfiguredTree.config_wrappables.items() if not isinstance(v, str) and k in ATTRS}
     wr["distfiles"] = partial(ConfiguredTree._distfiles, None)
-    raw = FakePkg(
-        "c/p-1",
-        eapi="8",
-        iuse=("a", "b", "L", "K"),
-        restrict=render(ATTRS["restrict"]),
-        data={
-            "DEPEND": render(ATTRS["depend"]),
-            "RDEPEND": render(ATTRS["rdepend"]),
-            "PDEPEND": render(ATTRS["pdepend"]),
-            "BDEPEND": render(ATTRS["bdepend"]),
-            "IDEPEND": render(ATTRS["idepend"]),
-            "LICENSE": render(ATTRS["license"]),
-            "REQUIRED_USE": render(ATTRS["required_use"]),
-        },
-    )
-    # FakePkg pins fetchables to []; hold a string DepSet there instead (distfiles likewise, independent of SRC_URI parsing)
-    object.__setattr__(raw, "fetchables", DepSet.parse(render(ATTRS["fetchables"]), str, operators={}))
-    object.__setattr__(raw, "distfiles", DepSet.parse(render(ATTRS["distfiles"]), str, operators={}))
     missing = [a for a in ATTRS if a not in wr]
     if missing:
         raise RuntimeError(f"ConfiguredTree.config_wrappables lacks {missing}")
     _cls["wrapper"] = make_wrapper(FakeRepo(), "use", wr)
-    _cls["raw"] = raw
     return _cls
+
+
+def _view(raw):
+    return _cls["wrapper"](raw, initial_settings=list(INITIAL_USE), unchangable_settings=frozenset(UNCHANGEABLE))
 
 
 def _fmt(v):
@@ -157,7 +197,7 @@ def _fmt(v):
 
 
 class St:
-    __slots__ = ("w", "log", "canon")
+    __slots__ = ("w", "raw", "log", "canon")
 
 
 def snapshot(w):
@@ -196,9 +236,10 @@ def apply_event(w, ev):
 
 
 def build(hist):
-    s = _setup()
+    _setup()
     st = St()
-    st.w = s["wrapper"](s["raw"], initial_settings=list(INITIAL_USE), unchangable_settings=frozenset(UNCHANGEABLE))
+    st.raw = _mk_raw()
+    st.w = _view(st.raw)
     st.log = []
     for ev in hist:
         before = sorted(st.w.use)
@@ -216,9 +257,38 @@ def canon(st):
 _ref = {}
 
 
+def _reference(use):
+    """{attr: string form of the raw attribute evaluated under `use`}, computed once per USE set (16 possible) on a
+    pristine raw package whose DepSets nothing else has ever evaluated."""
+    r = _ref.get(use)
+    if r is None:
+        raw = _mk_raw()
+        r = {}
+        for a in ATTR_ORDER:
+            ref = getattr(raw, a).evaluate_depset(use)
+            if a == "distfiles":
+                ref = tuple(dict.fromkeys(ref))
+            r[a] = _fmt(ref)
+        _ref[use] = r
+    return r
+
+
+def _check_view(w, what, label):
+    use = frozenset(w.use)
+    ref = _reference(use)
+    for a in ATTR_ORDER:
+        got = _fmt(getattr(w, a))
+        exp = ref[a]
+        if got != exp:
+            return [{"what": what, "attr": a, "detail": f"{label}{a} = {got!r} but raw {a} under USE {sorted(use)} = {exp!r}"}]
+        ml = sorted(model_leaves(ATTRS[a], use))
+        if leaves_of_text(got) != ml:
+            return [{"what": what if what != "stale" else "model", "attr": a, "detail": f"{label}{a} = {got!r} but the leaves enabled under USE {sorted(use)} are {ml}"}]
+    return []
+
+
 def check_state(st, hist):
-    s = _setup()
-    raw = s["raw"]
+    _setup()
     w = st.w
     out = []
     if hist:
@@ -235,23 +305,10 @@ def check_state(st, hist):
                     f"{res} but USE went {before} -> {after}",
                 }
             )
-    use = frozenset(w.use)
-    for a in ATTR_ORDER:
-        got = _fmt(getattr(w, a))
-        exp = _ref.get((a, use))
-        if exp is None:
-            # reference: the raw attribute evaluated under a private copy of the observed USE set (16 possible sets)
-            ref = getattr(raw, a).evaluate_depset(use)
-            if a == "distfiles":
-                ref = tuple(dict.fromkeys(ref))
-            exp = _ref[(a, use)] = _fmt(ref)
-        if got != exp:
-            out.append({"what": "stale", "attr": a, "detail": f"{a} = {got!r} but raw {a} under USE {sorted(use)} = {exp!r}"})
-            break
-        ml = sorted(model_leaves(ATTRS[a], use))
-        if leaves_of_text(got) != ml:
-            out.append({"what": "model", "attr": a, "detail": f"{a} = {got!r} but the leaves enabled under USE {sorted(use)} are {ml}"})
-            break
+    out.extend(_check_view(w, "stale", ""))
+    if not out:
+        # a second configured view of the same raw package, created and read after everything the first view did
+        out.extend(_check_view(_view(st.raw), "view2", "second view of the same raw package: "))
     return out
 
 
@@ -356,7 +413,7 @@ def work(task):
         counters["states"] += res["states"]
         counters["transitions"] += res["transitions"]
         counters["max_depth"] = max(counters["max_depth"], res["max_depth"])
-        evals += (res["transitions"] + 1) * len(ATTR_ORDER)
+        evals += (res["transitions"] + 1) * len(ATTR_ORDER) * 2  # both views
         for f in found:
             f["msg"] = f"after {json.dumps(f['hist'])}: {f['detail']}"
             viol.append(f)
